@@ -2,20 +2,21 @@ SPECIFICATION Spec
 CONSTANTS
   Cfg0 <- MCfg
   Types <- MTypes
-  MaxEv = 3
-  MaxAct = 3
+  MaxEv = 4
+  MaxAct = 4
   Budget = 2
   NDrv = 1
-  DrvBudget = 2
-  MaxDepth = 2
+  DrvBudget = 3
+  MaxDepth = 1
   QueueCap = 0
   HardLimit = 0
-  WithErrors = TRUE
+  WithErrors = FALSE
   WithIdle = FALSE
   WithSleep = FALSE
-  KeepLog = FALSE
+  KeepLog = TRUE
 INVARIANT TypeOK
 INVARIANT LockOK
 INVARIANT NoUnexplainedWitness
 INVARIANT TerminalOK
+INVARIANT EmitBehaviour
 CHECK_DEADLOCK FALSE
